@@ -37,6 +37,8 @@ type BoundedSpec struct {
 	File    string `json:"file"`   // harness source under /verif/bounded
 	Quick   string `json:"quick"`  // bound description / env value for quick tier
 	Thorough string `json:"thorough"`
+	Tags    string `json:"tags"`   // build tags for the harness run (e.g. verif for the crash-point hook)
+	Timeout string `json:"timeout"` // go test -timeout for the harness (default 600s)
 }
 
 type KnownFinding struct {
